@@ -893,6 +893,8 @@ class Executor(object):
             self._undecided("is None on %r" % (b,))
         if isinstance(a, RefV) and isinstance(b, RefV):
             return a.term == b.term
+        if isinstance(a, FnV) and isinstance(b, FnV):
+            return a.term == b.term          # function objects: identity of the (uninterpreted) function value
         self._undecided("'is' on %r, %r" % (a, b))
 
     def _in(self, a, b, st):
